@@ -51,8 +51,18 @@ def codec_nc(dt):
     from xeofs.utils.io import _sanitize_attrs_nc, _desanitize_attrs_nc
 
     dt = _sanitize_attrs_nc(dt)
-    # a netCDF file stores only str / numbers / arrays: everything else must have been stringified
+    # a netCDF file stores only str / numbers / arrays: everything else must have been stringified. xarray's own validator
+    # (the one `to_netcdf` runs before writing) decides; the hand-written test below is kept as a cross-check
+    try:
+        from xarray.backends.writers import _validate_attrs
+    except Exception:  # noqa: BLE001  other xarray layout
+        _validate_attrs = None
     for node in dt.subtree:
+        if _validate_attrs is not None:
+            try:
+                _validate_attrs(node.to_dataset(), engine="netcdf4")
+            except (TypeError, ValueError) as e:
+                raise AssertionError(f"node {node.path}: {str(e)[:200]}")
         for holder in [node] + [node[v] for v in node.variables]:
             for k, a in holder.attrs.items():
                 if isinstance(a, (dict, bool, type(None))) or (isinstance(a, list) and any(isinstance(x, (dict, list, type(None))) for x in a)):
@@ -61,11 +71,15 @@ def codec_nc(dt):
 
 
 def _jsonable(o):
-    if hasattr(o, "item") and getattr(o, "shape", None) == ():
-        return o.item()
-    if hasattr(o, "tolist"):
-        return o.tolist()
-    return str(o)
+    """what zarr's attribute encoder accepts beyond plain JSON: numpy integers and reals become Python numbers; anything else
+    (numpy.bool_, arrays, objects) is a TypeError there, and here"""
+    import numbers
+
+    if isinstance(o, numbers.Integral):
+        return int(o)
+    if isinstance(o, numbers.Real):
+        return float(o)
+    raise TypeError(f"Object of type {type(o).__name__} is not JSON serializable")
 
 
 def codec_json(dt):
@@ -235,7 +249,12 @@ def run_model(case):
             zoo.transform(zc, m, make_new(data, {"n_new": 3, "coords": "disjoint", "mseed": 1}, np.random.default_rng(1)))
         except Exception:  # noqa: BLE001
             pass
-    ref = answers(cls, m, data, dim)
+    try:
+        ref = answers(cls, m, data, dim)
+    except Exception as e:  # noqa: BLE001  the fitted model itself no longer answers (after a transform of other data)
+        F.append(Finding("oracle", "tree_roundtrip", cc + "|original-model-raises", f"{cls}: the fitted model raised {type(e).__name__} when queried"
+                         f"{' after transform(other data)' if case['after_transform'] else ''}: {str(e)[:140]}"))
+        return {"findings": F, "info": {"dist": {"cls": cls, "codec": codec}}}
     try:
         dt = apply_codec(m.serialize(), codec)
         m2 = type(m).deserialize(dt)
